@@ -364,12 +364,20 @@ def run(scenario):
                 reach['rewrite_delivered'] = reach.get('rewrite_delivered', 0) + 1
                 reach['meaning_changed' if changed else 'meaning_neutral'] = reach.get('meaning_changed' if changed else 'meaning_neutral', 0) + 1
             deceived = {recv for (recv, orig, new, changed) in ctx['rewritten'] if changed}
+            forged = {new for (recv, orig, new, changed) in ctx['rewritten'] if changed}
             for e in est:
+                # for IKE_SA_INIT the endpoint is deceived only if the exchange it completed is one whose message was rewritten: after an
+                # INVALID_KE_PAYLOAD / COOKIE round the initiator sends a new request, which a mutation may leave untouched (the mutated field
+                # is not in it, or gets the value it already had) - thorough soak, seed 501002662
+                if mit['msg'] <= 2 and (e['req'] if mit['msg'] == 1 else e['res']) not in forged:
+                    continue
                 if e['node'] in deceived:
                     return V('established_despite_rewritten_exchange', {'msg': mit['msg'], 'kind': mit['kind']},
                              f'{e["node"]} marked IKE_SA {e["spi_i"].hex()} established although every copy of message {mit["msg"]} it received had been '
                              f'rewritten in flight ({mit["kind"]}), changing its meaning')
             for n in deceived:
+                if mit['msg'] <= 2 and any(e['node'] == n for e in est):
+                    continue          # it completed an exchange (judged above): its SAs belong to that one
                 if idx[n]:
                     return V('ipsec_sa_installed_despite_rewritten_exchange', {'msg': mit['msg'], 'kind': mit['kind']},
                              f'{n} installed {len(idx[n])} IPsec SAs although message {mit["msg"]} was rewritten ({mit["kind"]})')
